@@ -146,6 +146,11 @@ def run_case(w, llgo, name, files, meta, go126, procs="2"):
 REPLAY_SH = "#!/bin/sh\n# rebuilds this module with llgo (from $VERIF_REPO or /repo, -O0) and go, re-runs the C12 trace monitor\nexec python3 %s/checks/c12.py replay \"$(cd \"$(dirname \"$0\")\" && pwd)\"\n" % core.V
 
 
+def report(chk, name, rf, summary):
+    chk.violation(name, rf, summary)
+    os.chmod(os.path.join(chk.violations[-1]["replay"], "replay.sh"), 0o755)
+
+
 def judge(chk, res, stats):
     """turns one run_case result into violations / evidence"""
     name, files, meta = res["name"], res["files"], res["meta"]
@@ -174,7 +179,7 @@ def judge(chk, res, stats):
     rf["trace.go.txt"] = r.err
     if got[0] != "ran":
         rf["llgo-build.log"] = got[1]
-        chk.violation(name + "-llgo-build", rf, "[compile-failure] llgo cannot build %s which go accepts:\n%s" % (name, got[1][-1200:]))
+        report(chk, name + "-llgo-build", rf, "[compile-failure] llgo cannot build %s which go accepts:\n%s" % (name, got[1][-1200:]))
         return
     g = got[1]
     rf["trace.llgo.txt"] = g.err
@@ -204,7 +209,7 @@ def judge(chk, res, stats):
         summary = "[%s] %s (%d packages, shape %s): %d monitor reports; first: %s" % (
             ",".join(rules), name, meta["npkgs"], meta["shape"], len(problems), problems[0][1])
         rf["monitor.txt"] = "\n".join("%s: %s" % p for p in problems)
-        chk.violation(name, rf, summary + "\n" + "\n".join("%s: %s" % p for p in problems[1:6]))
+        report(chk, name, rf, summary + "\n" + "\n".join("%s: %s" % p for p in problems[1:6]))
     return rev
 
 
